@@ -281,7 +281,7 @@ def run_item(item):
         opt = rng.choice(['file-style', 'commit-style'])
     elif 'raw' in words and opt not in RAW_OMIT_DEFINED:
         opt = rng.choice(sorted(RAW_OMIT_DEFINED))
-    if ('ul' in words or 'underline' in words) and opt in HEADER_OPTS and 'omit' not in words:
+    if 'underline' in words and opt in HEADER_OPTS and 'omit' not in words:
         opt = rng.choice(sorted(set(PROBES) - HEADER_OPTS - ({'grep-file-style', 'grep-line-number-style'} if 'raw' in words else set())))
         if 'raw' in words:
             opt = rng.choice(['minus-style', 'plus-style', 'zero-style'])
@@ -298,9 +298,10 @@ def run_item(item):
     if 'box' in low:
         # "box" is a decoration attribute, defined for header styles only: outside this property's grammar
         return inconclusive('string contains a decoration attribute', sets=sets)
-    if opt in HEADER_OPTS and ('ul' in low or 'underline' in low):
-        # in header styles "ul" is taken as a request for an underline *decoration* (documented special case)
-        return inconclusive('ul in a header style is a decoration request', sets=sets)
+    if opt in HEADER_OPTS and 'underline' in low:
+        # in header styles the word "underline" asks for an underline *decoration* (documented special case); "ul" stays
+        # a text attribute there
+        return inconclusive('"underline" in a header style is a decoration request', sets=sets)
     if not ref.valid:
         if not rejected:
             return violated('c12:invalid-accepted', 'an invalid style string %r for --%s was accepted instead of rejected' % (shown, opt),
